@@ -31,7 +31,7 @@ LEVEL = 'exploration'
 TECHNIQUE = ('runtime monitoring: semantic snapshots of schema / value arguments before and after every codec call '
              '(contracts on the real entry points, icontract when available), comparison of every call in a shared '
              'history with the same call on fresh objects, object-identity scan of result graphs, interleaved stepping '
-             'of suspended streaming decoders, threads under a 1 microsecond switch interval, debug logging on/off')
+             'of suspended streaming decoders, threads under a 1 microsecond switch interval, debug logging on/off (incl. open-type resolution over one shared schema)')
 RULE = ('a case = (T, v) with a history of 12..30 codec calls (ber/cer/der/native encode and decode, streaming decode, '
         'calls that fail on damaged input) sharing ONE schema object, ONE value object and the module-level codec '
         'singletons; arms: snapshots, isolation, aliasing (mutating one result must not move the spec or a sibling '
@@ -563,6 +563,99 @@ def arm_logging(res, rng, bt):
     res.see('logging-ok')
 
 
+
+# ------------------------------------------------------------------ open types: one schema object, many governing values
+
+def opentype_case(rng, tier):
+    """-> case ('c12-open', container, govkind, shape, anytag, tmap, values(reprs), codec name) or None"""
+    from . import c18
+    container = rng.choice(['seq', 'set'])
+    govkind = rng.choice(['int', 'oid'])
+    shape = rng.choice(['single', 'single', 'seqof', 'setof'])
+    anytag = rng.choice(['untagged', 'implicit', 'explicit'])
+    if container == 'set' and anytag == 'untagged':
+        anytag = 'explicit'
+    cname = rng.choice(sorted(c18.CODECS))
+    codec, defMode = c18.CODECS[cname][3], c18.CODECS[cname][4]
+    o = C.opts_for(tier, rng, allow_any=False, depth=2, big_strings=False)
+    tmap, vals = [], []
+    for i in range(rng.randint(2, 4)):
+        for _try in range(30):
+            T = U.gen_type(rng, o, depth=rng.choice([0, 0, 1, 2]))
+            v = U.gen_value(rng, T, o, small=True)
+            if c18.inner_ok(T, v, codec, defMode):
+                tmap.append((c18.gov_value(govkind, i), T))
+                vals.append(v)
+                break
+    if len(tmap) < 2:
+        return None
+    return ('c12-open', container, govkind, shape, anytag, tuple(tmap), tuple(vals), cname)
+
+
+def arm_opentypes(res, case):
+    """Every governing value of one map is decoded (a) on a fresh schema, quietly, (b) on ONE shared schema object in
+    sequence, (c) with debug logging on, (d) after logging was switched off again, with and without resolution."""
+    from . import c18
+    _, container, govkind, shape, anytag, tmap, vals, cname = case
+    enc, ekw, dec, codec, defMode = c18.CODECS[cname]
+    feats = {'arm:opentypes', 'codec:' + cname, 'anytag:' + anytag, 'shape:' + shape, 'container:' + container}
+
+    def fresh():
+        return c18.make_schema(container, govkind, shape, anytag, tmap)
+
+    encs = []
+    for (g, Tin), v in zip(tmap, vals):
+        try:
+            val = fresh().clone()
+            val['gov'] = g
+            if shape == 'single':
+                val['blob'] = B.value(Tin, v)
+            else:
+                val['blob'].clear()
+                val['blob'].append(B.value(Tin, v))
+                val['blob'].append(B.value(Tin, v))
+            encs.append(enc(val, **ekw))
+        except Exception:
+            res.see('opentypes:skipped-build-or-encode-raised')
+            return
+
+    def call(schema, e, resolve):
+        def go():
+            d, rest = dec(e, asn1Spec=schema, **(dict(decodeOpenTypes=True) if resolve else {}))
+            return (d.prettyPrint(), rest)
+        return outcome_of(go)
+
+    plan_ = [(i, r) for r in (True, False) for i in range(len(encs))]
+    quiet = [call(fresh(), encs[i], r) for i, r in plan_]
+    shared = fresh()
+    hist = [call(shared, encs[i], r) for i, r in plan_]
+    sink = Sink()
+    try:
+        debug.setLogger(debug.Debug('all', printer=sink))
+        loud = [call(fresh(), encs[i], r) for i, r in plan_]
+    finally:
+        debug.setLogger(None)
+    after = [call(fresh(), encs[i], r) for i, r in plan_]
+    res.see('opentype-comparisons', 3 * len(plan_))
+    res.see('log-messages-seen', sink.n)
+    for k, (i, r) in enumerate(plan_):
+        f = feats | {'resolution:' + ('on' if r else 'off')}
+        if hist[k] != quiet[k]:
+            res.witness('outcome-differs-from-isolated-call:opentype-decode', f, case,
+                        'governing value #%d: fresh %r shared %r' % (i, repr(quiet[k])[:200], repr(hist[k])[:200]))
+            return
+        if loud[k] != quiet[k]:
+            res.witness('outcome-differs-with-logging-on:opentype-decode', f, case,
+                        'governing value #%d of %d: quiet %r loud %r' % (i, len(encs), repr(quiet[k])[:200], repr(loud[k])[:200]))
+            return
+        if after[k] != quiet[k]:
+            res.witness('outcome-differs-after-logging-was-switched-off:opentype-decode', f, case, '')
+            return
+    if any(isinstance(q, tuple) and q and q[0] == 'raised' for q in quiet):
+        res.see('opentypes:some-quiet-calls-raised')
+    res.see('opentypes-ok')
+
+
 def run_shard(shard, tier, seed):
     res = H.Result(ID)
     rng = C.rng_for(seed, ID, shard['shard'])
@@ -586,6 +679,10 @@ def run_shard(shard, tier, seed):
                 arm_aliasing(res, rng, bt2)
                 if i % 3 == 0:
                     arm_logging(res, rng, bt2)
+                if i % 4 == 1:
+                    oc = opentype_case(rng, tier)
+                    if oc is not None:
+                        arm_opentypes(res, oc)
                 pool.append(C.try_build(res, T, v))
                 if len(pool) >= 5:
                     arm_interleave(res, rng, pool[:rng.randint(2, 5)])
@@ -617,7 +714,9 @@ def replay(case):
     contracts = Contracts()
     contracts.install()
     try:
-        if case[0] in ('c12-history', 'c12-alias', 'c12-logging'):
+        if case[0] == 'c12-open':
+            arm_opentypes(res, case)
+        elif case[0] in ('c12-history', 'c12-alias', 'c12-logging'):
             T, v = case[1], case[2]
             for s in range(30):
                 rng = random.Random(s)
